@@ -24,7 +24,7 @@ R = Registry('C03')
 TYPES = ['UNKNOWN', 'CLIENT_HELLO', 'SERVER_HELLO', 'CHALLENGE_RESP', 'KEEP_ALIVE', 'DISCONNECT', 'APP', 'APP_FRAGMENT']
 EXPLANATION = ('C03 composition: L3.1 shows every packet of one direction is built by one function that enforces '
                't - last_send_time >= send_interval, advances seq by exactly one ring step and writes (magic, int(t), seq, ack) into '
-               'bytes 0..11; by induction two packets c ring steps apart are at least c*send_interval apart; equal seq means c is a '
+               'bytes 0..11; L3.2 is the solver-checked inductive step (history of c packets spans >= (c-1) intervals) so two packets c ring steps apart are at least c*send_interval apart; equal seq means c is a '
                'multiple of 65535 (C08 L8.1); L3.3 then gives different ctime, hence different nonces; the magic separates the directions.')
 
 
@@ -77,6 +77,36 @@ R.add('L3.1', l31, lambda tier: [dict(kind=k, q=q) for k in ('base', 'client', '
       expect=['a packet is built only when the send interval has elapsed (rate cap)',
               'the sequence number advances by exactly one ring step', 'nonce bytes 0..11 are (direction magic, ctime, seq, ack)'],
       bounds='arbitrary clocks, sequence number, windows, status; <= 1 (thorough 2) queued messages of any type / retry mode')
+
+
+# ------------------------------------------------------------------ L3.2 ghost induction over a send history
+def l32():
+    """ghost counter c of packets built so far and ghost t_first (build time of the first): the invariant
+    t_last - t_first >= (c - 1) * send_interval is preserved by every real _build_packet step, for a send
+    history of any length (c symbolic); together with L3.1's exact successor this is what L3.3 consumes"""
+    c_ = symint('packets_so_far', 1, 10 ** 9)
+    t_first = symreal('t_first', lo=0, hi=4000000000)
+    t_last = symreal('t_last', lo=0, hi=4000000000)
+    now = symreal('now', lo=0, hi=4000000000)
+    assume(And(t_last >= t_first, now >= t_last))
+    clock = proto.clock_at(now)
+    c = proto.mk_base(server=bool(symbool('isServer')), clock=clock)
+    I = c.send_interval
+    assume((t_last - t_first) >= (c_ - 1) * I)              # induction hypothesis
+    c.last_send_time = t_last
+    c.last_send_keep_alive_time = symreal('last_ka', lo=-1, hi=now)
+    c.seq_sending = SeqNum(symint('seq', 0, 65535))
+    if bool(symbool('queued')):
+        c.send(b'x', proto.MODES[choose(3, 'retry')], None)
+    pkt = c._build_packet()
+    if pkt is None:
+        check(c.last_send_time == t_last, 'no packet: history unchanged')
+        return
+    check((c.last_send_time - t_first) >= ((c_ + 1) - 1) * I, 'after the (c+1)-th packet the history is still >= c send intervals long')
+
+
+R.add('L3.2', l32, [{}], desc='inductive step of the spacing invariant over the real _build_packet (history length symbolic)',
+      expect=['after the (c+1)-th packet the history is still >= c send intervals long'])
 
 
 # ------------------------------------------------------------------ L3.3
